@@ -277,7 +277,24 @@ def _open_hdd_type(typ, drop_descriptor=False, ancestor_type=None):
         if not drop_descriptor:
             with open(os.path.join(hd, "DiskDescriptor.xml"), "w") as f:
                 f.write(BH.descriptor_xml(16, [(0, 16, images)], shots))
-        s = HDD(Path(hd)).open()
+        h = HDD(Path(hd))
+        try:
+            s = h.open()
+        except Exception:
+            # the same object asked again (and for the snapshot by GUID) must refuse again
+            for again in (lambda: h.open(), lambda: h.open(BH.DEFAULT_TOP), lambda: h.open()):
+                try:
+                    s2 = again()
+                except Exception:
+                    continue
+                data = s2.read(512)
+                for _, x in s2.streams:
+                    try:
+                        getattr(x, "fh", x).close()
+                    except Exception:
+                        pass
+                return data  # accepted on a later attempt: the caller expects an exception
+            raise
         try:
             return s.read(512)
         finally:
